@@ -164,6 +164,11 @@ def cases(tier, seed):
                                     out.append(dict(sizes=list(sizes), E=E, k=1, support=[[1]], pattern=pat, fd=list(fd),
                                                     mask=None, hermitian=True, repr="csr", vset=vs, total=3, req=req))
     if tier != "quick":
+        # the complete N = 5 slice of the structure lattice (every composition into <= 3 blocks, every level pattern,
+        # every fully_diagonalize subset), first-order perturbation, floating-point representations
+        for st in lattice.structures(5, hermitian=True, ks=(1,), patterns=("dense",), supports={1: [[(1,)]]}, Nmin=5):
+            for rep in ("dense", "csr"):
+                out.append(dict(st, repr=rep, vset=0, total=3))
         # the 4-block composition and N = 5 layouts
         for sizes in ((1, 1, 1, 1), (2, 3), (1, 4), (5,)):
             for E in lattice.level_patterns(sizes):
